@@ -12,19 +12,53 @@ VERIF = extract.VERIF
 def ensure(name, ctx):
     if name == "catalogue":
         tier, seed = ctx.tier, ctx.seed
-        src, specs = catgen.generate(tier, seed)
-        key = hashlib.sha256(src.encode()).hexdigest()
+        import re
+        excluded = {}
+        all_specs = None
+        last = None
+        for attempt in range(4):
+            src, specs, ranges = catgen.generate(tier, seed, exclude=set(excluded))
+            if all_specs is None:
+                all_specs = {s["name"]: s for s in specs}
+            key = hashlib.sha256(src.encode()).hexdigest()
 
-        def gen(work):
-            with open(os.path.join(work, "src", "lib.rs"), "w") as f:
-                f.write(src)
-            with open(os.path.join(work, "spec.json"), "w") as f:
-                json.dump(specs, f)
-        cname = "catalogue-%s" % tier
-        d, st = extract.ensure_corpus_facts(cname, os.path.join(VERIF, "catalogue"), ["deserr_catalogue"],
-                                            log=ctx.log, extra_gen=gen, extra_key=key)
-        ctx.catalogue_specs = {s["name"]: s for s in specs}
-        return d, st, ["deserr_catalogue"]
+            def gen(work, src=src, specs=specs):
+                with open(os.path.join(work, "src", "lib.rs"), "w") as f:
+                    f.write(src)
+                with open(os.path.join(work, "spec.json"), "w") as f:
+                    json.dump(specs, f)
+            cname = "catalogue-%s" % tier
+            try:
+                d, st = extract.ensure_corpus_facts(cname, os.path.join(VERIF, "catalogue"), ["deserr_catalogue"],
+                                                    log=ctx.log, extra_gen=gen, extra_key=key)
+            except extract.CorpusBuildFailed as e:
+                # which entries do not compile?  (error spans point at the derive line of the entry)
+                last = e
+                bad = {}
+                lines = e.output.splitlines()
+                for i, l in enumerate(lines):
+                    m = re.match(r"^\s*--> src/lib\.rs:(\d+):\d+", l)
+                    if not m:
+                        continue
+                    ln = int(m.group(1))
+                    msg = ""
+                    for j in range(i, max(-1, i - 4), -1):
+                        if lines[j].startswith("error"):
+                            msg = lines[j].strip()
+                            break
+                    for nm, (a, b) in ranges.items():
+                        if a <= ln <= b and nm not in bad:
+                            bad[nm] = msg or "does not compile"
+                if not bad or attempt == 3:
+                    raise
+                excluded.update(bad)
+                continue
+            ctx.catalogue_specs = {s["name"]: s for s in specs}
+            ctx.catalogue_excluded = {k: {"error": v, "features": sorted(catgen.type_features(all_specs[k])) if k in all_specs else []} for k, v in excluded.items()}
+            st = dict(st)
+            st["excluded_entries"] = sorted(excluded)
+            return d, st, ["deserr_catalogue"]
+        raise last
     if name == "controls":
         d, st = extract.ensure_corpus_facts("controls", os.path.join(VERIF, "controls"), ["deserr_controls"], log=ctx.log)
         return d, st, ["deserr_controls"]
